@@ -801,3 +801,13 @@ def r10(cx):
 # --- explanation addendum (generated catalogue in DESIGN.md reads RS.explanation)
 RS.explanation += ' Added later: the target descriptor is saved before anything is opened (R1d); no descriptor the shell must close is held as a bare number across an await of a cancellable computation (R9, K-RES with yield terminators as cancellation points; three open findings).'
 RS.explanation += ' The exec built-in asks for its redirections to be kept on every return after its arguments were accepted (R10).'
+
+
+# --- wave 5: a command substitution in the operand of a redirection whose subshell cannot be started (seed C09-s9): the pipe made
+# for it must not stay open in the shell after the failed redirection
+from rules.C08 import r11 as _c08_cmdsubst_pipe_closed_on_every_exit
+from engine import Rule
+RS.rules.append(Rule('C09.R11', 'K-RES', 'a redirection whose operand contains a command substitution leaves no descriptor behind when the '
+                     'subshell cannot be started: both ends of the pipe made for the substitution are closed on the start-failure exit '
+                     '(C08.R11 / C14.R1)', _c08_cmdsubst_pipe_closed_on_every_exit))
+RS.explanation += ' The pipe of a command substitution inside a redirection operand is closed on the start-failure exit too (R11 = C08.R11).'
